@@ -119,6 +119,17 @@ CHECKS = {
         design_ref="DESIGN.md section 4, C04",
         note="Trusted base: CrossHair 0.0.110, z3 5.1, plugin struct model/abstract checksum/gzip stub (real ones in every replay), reference parser vlib/ref/kafka_ref.py, symrun for version selection. Topic names, partition ids and group texts come from finite pools.",
     ),
+    "C15": dict(
+        category="other", engine="chplug",
+        technique="symbolic execution of the real assignment code with CrossHair/z3: symbolic subscription matrix and symbolic distinct partition ids per shape; 'Confirmed over all paths'",
+        text="Bounded SMT verification of the real _ConsumerProtocol (generate_assignments, _round_robin_assignment, decode_assignment) together "
+             "with the subscription and assignment codecs. Per shape (number of members, topics, partitions per topic, a listing permutation) the "
+             "subscription matrix is symbolic booleans and the partition ids are symbolic distinct int32 values; on every path each partition of "
+             "a subscribed topic must be decoded by exactly one member, only by subscribed members, sizes differ by at most one for identical "
+             "subscriptions, and the result must be identical for the permuted listing.",
+        design_ref="DESIGN.md section 4, C15",
+        note="Trusted base: CrossHair 0.0.110, z3 5.1, the plugin's struct model. Member ids/topic names come from finite pools; sizes beyond the stated bound are outside the claim.",
+    ),
 }
 
 NOT_YET = "check not built yet in this session; see DESIGN.md section 4 for the planned solver-based harness"
